@@ -18,9 +18,10 @@ from .c09 import IMPORTS
 
 PROP = "C10"
 THEOREMS = ["C10_suffixes_commute", "C10_suffix_alone", "C10_shorthand_is_long_form", "C10_part_long_forms", "C10_part_spec_lists",
-            "C10_path_strings", "C10_path_string_tokens"]
+            "C10_path_strings", "C10_path_string_tokens", "C10_rule_spec_fields", "C10_rule_spec_builds_api_rule",
+            "C10_doc_one_normal_form", "C10_doc_normalisation_idempotent", "C10_cast_block_shapes"]
 FACT_LEMMAS = ["C10Proof / C09Proof table facts (closed computations on the generated tables)"]
-DEPENDS = ['Py.v', 'Lang.v', 'Defs.v', 'Cond.v', 'Dsl.v', 'Check.v', 'DocSem.v', 'Inst.v', 'Gen/TablesGen.v', 'Gen/CallablesGen.v', 'Gen/SpecGen.v', 'Path.v', 'Cast.v', 'Str.v', 'SpecDefs.v', 'RuleDefs.v', 'Rule.v', 'Spec.v', 'SpecIO.v', 'Eq.v', 'FromStr.v', 'RunSpec.v', 'SpecSpell.v', 'RuleTerms.v', 'Proofs/Tie.v', 'Proofs/PyFacts.v', 'Proofs/C02Proof.v', 'Proofs/RuleProof.v', 'Proofs/C09Proof.v', 'Proofs/C10Proof.v', 'Properties/C10.v']
+DEPENDS = ['Py.v', 'Lang.v', 'Defs.v', 'Cond.v', 'Dsl.v', 'Check.v', 'DocSem.v', 'Inst.v', 'Gen/TablesGen.v', 'Gen/CallablesGen.v', 'Gen/SpecGen.v', 'Path.v', 'Cast.v', 'Str.v', 'SpecDefs.v', 'RuleDefs.v', 'Rule.v', 'Spec.v', 'SpecIO.v', 'Eq.v', 'FromStr.v', 'RunSpec.v', 'SpecSpell.v', 'RuleTerms.v', 'Proofs/Tie.v', 'Proofs/PyFacts.v', 'Proofs/C02Proof.v', 'Proofs/RuleProof.v', 'Proofs/C09Proof.v', 'Proofs/C10Proof.v', 'Proofs/C11Proof.v', 'Proofs/C13Proof.v', 'Proofs/C14Proof.v', 'Proofs/C10RuleProof.v', 'Properties/C10.v']
 ASSUMPTIONS = ["Layer P models CPython's operators (pysem)", "float(str) in DataPath.from_str is an oracle (CPython's own outcome per token)",
                "YAML text -> Python structure is ruamel.yaml's and is outside the model (exercised by correspondence only)"]
 
